@@ -147,3 +147,17 @@ package vendingpb
 //@
 //@ // (*modelArgs).apply is not under contract: its rule distinguishes options by the non-pointer dynamic type modelOption, and
 //@ // istype(x, modelOption) is not accepted by the spec language (verifier panic "main.Expr is *main.EIdent, not *main.EType").
+//@
+//@ // C15: page tokens are written and read with the same base64 alphabet (the chain-of-pages argument assumes that a
+//@ // token handed out is accepted again; the codec itself is a library assumption)
+//@ property C15
+//@ func encodePageToken(pageToken) (res, err)
+//@   inline
+//@   track EncodeToString
+//@   ensures [alphabet] calls(EncodeToString) > old(calls(EncodeToString)) ==> lastarg(EncodeToString, 0) == base64.StdEncoding
+//@   ensures [encoded] pageToken != nil && err == nil ==> calls(EncodeToString) == old(calls(EncodeToString)) + 1
+//@ func decodePageToken(token, pageToken) (err)
+//@   inline
+//@   track DecodeString
+//@   ensures [alphabet] calls(DecodeString) > old(calls(DecodeString)) ==> lastarg(DecodeString, 0) == base64.StdEncoding
+//@   ensures [decoded] token != "" ==> calls(DecodeString) == old(calls(DecodeString)) + 1
